@@ -16,7 +16,7 @@ SUGAR = ["RetryPolicy.call", "AsyncRetryPolicy.execute", "Policy.context", "Asyn
 ENDINGS = ["ok", "x:T", "r:T", "x:P", "abort", "kbd", "exit", "cancel", "genexit", "nested", "coe"]
 ENDINGS0 = ["ok", "x:T", "x:P", "abort", "kbd", "exit", "cancel", "genexit", "nested", "coe"]
 SITES = ["classifier", "rclassifier", "strategy", "sleeper", "handler", "astart", "aend",
-         "abort_if"]
+         "abort_if", "metric", "log"]
 BRK = {"closed": {"threshold": 2, "window": 8, "recovery": 2, "trip_on": ["T", "U", "P"]},
        # half-open with a free slot: the previous probe handed its slot back (cancel), so this
        # call is admitted as the probe without a circuit_half_open event
